@@ -127,6 +127,10 @@ def oracle(u: Universe, tc: TypeCase, aval: Dict[str, Any], route: str, tally: T
 
 def routes_fn(tc: TypeCase, aval) -> tuple:
     r = ROUTES
+    if any(isinstance(v, (list, dict)) and len(v) > 200 for v in aval.values()):
+        # grow_after_len sizes the message after every single append: quadratic, so the 17 000-element
+        # values take the other routes only
+        r = tuple(x for x in r if x != "grow_after_len")
     if fresh_variant(tc.msg, aval):
         r = r + ("ctor_fresh", "setattr_fresh")
     if lazy_variant(tc.msg, aval):
